@@ -11,7 +11,11 @@
    WP1 = wpd (one-parameter leaves); a field is absent when the modelled class has no such derivative.
    SE/BE = den / bden of the same expression as a C05Expr.kexp value; MX = C05Blocks.gram_mixed (calculateMixedKernelMatrix,
    X1 in the given partition, X2 in batches of 2 as in the harness); KD = C05Blocks.kmpd (calculateKernelMatrixParameterDerivative
-   over the partitioned X1 with the symmetric weights CS(i,j) = C(i, j mod n2) + C(j, i mod n2) that the harness builds). *)
+   over the partitioned X1 with the symmetric weights CS(i,j) = C(i, j mod n2) + C(j, i mod n2) that the harness builds).
+   Magnitude stream: W lines = V lines whose input coordinates are multiplied by 2^e (floats only unless e = 0); for NORM K at the
+   root the same kernel is also evaluated through C05Norm (NK = k_norm_coded, NBK = b_norm_nostate, NBSK = b_norm_state).
+   N lines carry the base-kernel numbers the C++ harness printed (hex doubles): NS = C05Norm.norm_single_mat, NB = norm_rowdiv,
+   NBS = norm_outer (the three as-coded operation orders of NormalizedKernel), ND = norm_doc_mat (the documented one-division order). *)
 open C05_model
 
 let rec nat_of_int n = if n <= 0 then O else S (nat_of_int (n - 1))
@@ -43,6 +47,7 @@ module type ARITH = sig
   val opp : t -> t val sqrt : t -> t val exp : t -> t val isz : t -> bool
   val parse : string -> t
   val show : t -> string
+  val scale2 : int -> t -> t      (* multiplication by 2^e (input preparation of the magnitude stream) *)
 end
 
 module QA : ARITH = struct
@@ -68,6 +73,7 @@ module QA : ARITH = struct
     | Some k -> mkq (int_of_string (String.sub s 0 k)) (int_of_string (String.sub s (k + 1) (String.length s - k - 1)))
     | None -> mkq (int_of_string s) 1
   let show x = let d = qc_den x in if d = XH then z_to_string (qc_num x) else z_to_string (qc_num x) ^ "/" ^ pos_to_string d
+  let scale2 e x = if e = 0 then x else raise Inexact
 end
 
 module FA : ARITH = struct
@@ -81,6 +87,7 @@ module FA : ARITH = struct
     | Some k -> float_of_string (String.sub s 0 k) /. float_of_string (String.sub s (k + 1) (String.length s - k - 1))
     | None -> float_of_string s
   let show x = Printf.sprintf "%h" x
+  let scale2 e x = Float.ldexp x e
 end
 
 let split_groups toks =
@@ -230,6 +237,34 @@ module Make (A : ARITH) = struct
       let ex = kd @ [field "SE" (mstr (mk (den zero one add mul sub div opp sqrt exp nd.e) x1 x2));
                 field "BE" (mstr (bden zero one add mul sub div opp sqrt exp nd.e x1 x2))] in
       String.concat " " (A.tag :: base @ wi @ wp @ wp1 @ ex)
+    | ("W" :: _ :: dims :: es :: _) :: spec :: p1 :: p2 :: cs :: parts :: [reg] :: _ ->
+      let dim = int_of_string dims and e = int_of_string es in
+      toks := spec; let nd = parse dim in
+      let sc = List.map (List.map (A.scale2 e)) in
+      let x1 = sc (points dim p1) and x2 = sc (points dim p2) in
+      let c = chunks (List.length x2) (List.map A.parse cs) in
+      let parts = List.map int_of_string parts in
+      let base = common nd.k nd.bk nd.normalized x1 x2 parts (A.parse reg) in
+      let wi = match nd.g with Some g -> [field "WI" (mstr (wid zero add mul (nat_of_int dim) g c x1 x2))] | None -> [] in
+      let ex = [field "SE" (mstr (mk (den zero one add mul sub div opp sqrt exp nd.e) x1 x2));
+                field "BE" (mstr (bden zero one add mul sub div opp sqrt exp nd.e x1 x2))] in
+      (* NormalizedKernel at the root: the same kernel through the operation orders of C05Norm *)
+      let nk = match spec with
+        | "NORM" :: rest ->
+          toks := rest; let b = parse dim in
+          [field "NK" (mstr (mk (k_norm_coded div sqrt b.k) x1 x2));
+           field "NBK" (mstr (b_norm_nostate mul div sqrt b.k b.bk x1 x2));
+           field "NBSK" (mstr (b_norm_state zero mul div sqrt b.bk x1 x2))]
+        | _ -> [] in
+      String.concat " " (A.tag :: base @ wi @ ex @ nk)
+    | ("N" :: n1s :: n2s :: _) :: kb :: kx :: kz :: bb :: bbs :: kx1 :: kz1 :: _ ->
+      let n2 = int_of_string n2s in
+      let v l = List.map A.parse l in
+      let m l = if n2 = 0 then [] else chunks n2 (v l) in
+      String.concat " " [A.tag; field "NS" (mstr (norm_single_mat div sqrt (m kb) (v kx) (v kz)));
+                         field "NB" (mstr (norm_rowdiv mul div sqrt (m bb) (v kx) (v kz)));
+                         field "NBS" (mstr (norm_outer mul div sqrt (m bbs) (v kx1) (v kz1)));
+                         field "ND" (mstr (norm_doc_mat mul div sqrt (m kb) (v kx) (v kz)))]
     | ("D" :: ns :: _) :: tab :: p1 :: p2 :: parts :: [reg] :: _ ->
       let n = int_of_string ns in
       let t = chunks n (List.map A.parse tab) in
@@ -287,6 +322,8 @@ let () =
   let ic = open_in Sys.argv.(1) in
   (try while true do
       let l = input_line ic in
-      let r = try MQ.handle l with Inexact -> (try MF.handle l with Failure m -> "ERR " ^ m) | Failure m -> "ERR " ^ m | Not_found -> "ERR notfound" in
+      (* N lines carry doubles (hex): float run only *)
+      let r = if String.length l > 1 && l.[0] = 'N' && l.[1] = ' ' then (try MF.handle l with Failure m -> "ERR " ^ m)
+        else try MQ.handle l with Inexact -> (try MF.handle l with Failure m -> "ERR " ^ m) | Failure m -> "ERR " ^ m | Not_found -> "ERR notfound" in
       print_endline r
     done with End_of_file -> ())
